@@ -208,11 +208,11 @@ def h_send_split(ctx, noassert):
     inv = ctx.bool("investment_statement")
     C = optimized_copy(Client) if noassert else Client           # the request tuples are classes of that module
     rq = C.InvStmtRq(acctid="3") if inv else C.StmtRq(acctid="1", accttype="CHECKING")
-    failed = False
+    failed = None
     try:
         client.request_statements("s3cret", rq)
-    except (AssertionError, ValueError):
-        failed = True
+    except (AssertionError, ValueError) as e:
+        failed = type(e).__name__
     ctx.observe("refused", failed)
     for e in log:
         if e[0] != "POST":
